@@ -350,10 +350,26 @@ def run_one(job):
             if t not in out:
                 res["msgs"].append(("verbatim:" + where, "user text %r does not appear verbatim in the generated scanner" % t))
         # --- compile and run
-        c = subprocess.run(["gcc", "-w", "-I" + flex.incdir, "-o", "p.exe", "lex.yy.c"], cwd=wd, env=H.ENV, stdout=subprocess.PIPE, stderr=subprocess.PIPE, timeout=120)
+        c = subprocess.run(["gcc", "-w", "-g", "-I" + flex.incdir, "-o", "p.exe", "lex.yy.c"], cwd=wd, env=H.ENV, stdout=subprocess.PIPE, stderr=subprocess.PIPE, timeout=120)
         if c.returncode != 0:
             res["msgs"].append(("compile:" + where, "the generated scanner does not compile although every user-code region is valid C: " + c.stderr.decode("latin-1")[:400]))
             return res
+        # generated code must be attributed to the output file at its true line: the debug information of three generated functions
+        if not payload_at:
+            nm = subprocess.run(["nm", "-l", "p.exe"], cwd=wd, stdout=subprocess.PIPE, stderr=subprocess.PIPE).stdout.decode("latin-1")
+            for fn in ("yylex", "yy_create_buffer", "yylex_destroy"):
+                m = re.search(r"^\S+ [Tt] %s\t(\S+):(\d+)$" % fn, nm, re.M)
+                if not m:
+                    continue
+                res["ndir"] = res.get("ndir", 0) + 1
+                fpath, fline = os.path.basename(m.group(1)), int(m.group(2))
+                real = [j + 1 for j, l in enumerate(olines) if re.match(r"^(int|yybuffer|YY_BUFFER_STATE|YY_DECL)\b.*\b%s\b" % fn, l) or (fn == "yylex" and l.startswith("YY_DECL")) ]
+                if noline:
+                    continue
+                if fpath != "lex.yy.c":
+                    res["msgs"].append(("generated-attribution", "the generated function %s() is attributed to %s:%d by the line directives (it is generated code of lex.yy.c)" % (fn, fpath, fline)))
+                elif real and min(abs(fline - x) for x in real) > 3:
+                    res["msgs"].append(("generated-attribution", "the generated function %s() is attributed to lex.yy.c:%d, its definition is at line %s" % (fn, fline, real[:3])))
         r = subprocess.run(["./p.exe"], cwd=wd, env=H.ENV, stdin=subprocess.DEVNULL, stdout=subprocess.PIPE, stderr=subprocess.PIPE, timeout=30)
         if r.returncode != 0:
             res["msgs"].append(("run:" + where, "probe scanner exited with %s: %s" % (r.returncode, r.stderr.decode("latin-1")[-200:])))
